@@ -9,125 +9,208 @@ import (
 	"strings"
 )
 
-// blocks: the structural fact behind "concurrent callers are linearized by the allocator's mutex" (C17Conc):
-// in every exported method of *Blocks, every read or write of the bookkeeping — the free hint `bks.freeIdx`
-// and the bytes of a buffer obtained from `bks.bts.Buffer(..)` through an index expression — lies inside the
-// region opened by `bks.lock.Lock()`; an `Unlock()` that is not directly followed by a return closes it.
-// (`bks.available` is only touched through sync/atomic; Block() hands out a data slice without reading it.)
-func init() {
-	skeletonExtractors = append(skeletonExtractors, func(repo string) {
-		_, f, err := parseFile(filepath.Join(repo, "container", "bytes", "blocks.go"))
-		if err != nil {
-			fail("parse blocks.go", err)
-			return
+// Lock-region facts: the structural premise of "concurrent callers are linearized by the object's mutex"
+// (C17Conc, C09, C12/C13, C02/C07).  For every method of the receiver type, every read or write of the
+// protected state lies inside a region opened by `<recv>.lock.Lock()`; `defer <recv>.lock.Unlock()` keeps the
+// region open to the end of the function, an `Unlock()` directly followed by a return leaves through an exit,
+// any other `Unlock()` closes the region until the next `Lock()` (source order stands for control flow: the
+// functions concerned are straight-line code with early exits and one retry loop).
+// Protected state: the named fields of the receiver; optionally the bytes of a buffer obtained from a call of
+// bufCall (index expressions on the identifier it was bound to); optionally the named fields of ANY value
+// (fields of objects owned by the structure, e.g. future.idx).
+type lockTarget struct {
+	key       string   // fact name prefix
+	path      []string // file
+	recvType  string
+	fields    []string // fields of the receiver
+	bufCall   string   // "<recv>.bts.Buffer" style suffix after the receiver name, "" = none
+	anyFields []string // fields protected on any expression
+	helpers   []string // methods that run under the caller's lock by contract: not examined themselves, a CALL of one counts as an access
+	only      func(name string) bool
+}
+
+func lockRegionFacts(repo string, t lockTarget) {
+	_, f, err := parseFile(filepath.Join(append([]string{repo}, t.path...)...))
+	if err != nil {
+		fail("parse "+strings.Join(t.path, "/"), err)
+		return
+	}
+	var unlocked, locked []string
+	for _, d := range f.Decls {
+		fd, ok := d.(*ast.FuncDecl)
+		if !ok || fd.Recv == nil || fd.Body == nil {
+			continue
 		}
-		var unlocked, locked []string
-		for _, d := range f.Decls {
-			fd, ok := d.(*ast.FuncDecl)
-			if !ok || fd.Recv == nil || fd.Body == nil || !ast.IsExported(fd.Name.Name) {
-				continue
+		if len(fd.Recv.List) != 1 || len(fd.Recv.List[0].Names) != 1 {
+			continue
+		}
+		rt := exprString(fd.Recv.List[0].Type)
+		if i := strings.Index(rt, "["); i >= 0 {
+			rt = rt[:i] // generic receiver: *ECache[PK, K, V]
+		}
+		if rt != t.recvType || (t.only != nil && !t.only(fd.Name.Name)) {
+			continue
+		}
+		isHelper := false
+		for _, h := range t.helpers {
+			if h == fd.Name.Name {
+				isHelper = true
 			}
-			if len(fd.Recv.List) != 1 || exprString(fd.Recv.List[0].Type) != "*Blocks" || len(fd.Recv.List[0].Names) != 1 {
-				continue
-			}
-			recv := fd.Recv.List[0].Names[0].Name
-			// buffers: identifiers bound to the first result of <recv>.bts.Buffer(..)
-			bufs := map[string]bool{}
+		}
+		if isHelper {
+			continue
+		}
+		recv := fd.Recv.List[0].Names[0].Name
+		bufs := map[string]bool{}
+		if t.bufCall != "" {
 			ast.Inspect(fd.Body, func(n ast.Node) bool {
 				as, ok := n.(*ast.AssignStmt)
 				if !ok || len(as.Rhs) != 1 {
 					return true
 				}
-				if c, ok := as.Rhs[0].(*ast.CallExpr); ok && exprString(c.Fun) == recv+".bts.Buffer" {
+				if c, ok := as.Rhs[0].(*ast.CallExpr); ok && exprString(c.Fun) == recv+t.bufCall {
 					if id, ok := as.Lhs[0].(*ast.Ident); ok {
 						bufs[id.Name] = true
 					}
 				}
 				return true
 			})
-			var lockPos token.Pos
-			var closing []token.Pos // Unlock() calls that are NOT directly followed by a return
-			var visitBlock func(list []ast.Stmt)
-			visitBlock = func(list []ast.Stmt) {
-				for i, st := range list {
-					if es, ok := st.(*ast.ExprStmt); ok {
-						switch exprString(es.X) {
-						case recv + ".lock.Lock()":
-							if lockPos == 0 {
-								lockPos = es.Pos()
+		}
+		type ev struct {
+			pos  token.Pos
+			kind int // 1 lock, 2 closing unlock, 3 deferred unlock
+		}
+		var evs []ev
+		visitBlock := func(list []ast.Stmt) {
+			for i, st := range list {
+				switch x := st.(type) {
+				case *ast.ExprStmt:
+					switch exprString(x.X) {
+					case recv + ".lock.Lock()":
+						evs = append(evs, ev{x.Pos(), 1})
+					case recv + ".lock.Unlock()":
+						exit := false
+						if i+1 < len(list) {
+							switch list[i+1].(type) {
+							case *ast.ReturnStmt, *ast.BranchStmt: // return / continue / break: leaves the region through an exit
+								exit = true
 							}
-						case recv + ".lock.Unlock()":
-							ret := false
-							if i+1 < len(list) {
-								_, ret = list[i+1].(*ast.ReturnStmt)
-							} else if len(fd.Body.List) > 0 && st == fd.Body.List[len(fd.Body.List)-1] {
-								ret = true // the function ends here
-							}
-							if !ret {
-								closing = append(closing, es.Pos())
-							}
+						} else if len(fd.Body.List) > 0 && st == fd.Body.List[len(fd.Body.List)-1] {
+							exit = true // the function ends here
+						}
+						if !exit {
+							evs = append(evs, ev{x.Pos(), 2})
 						}
 					}
-				}
-			}
-			ast.Inspect(fd.Body, func(n ast.Node) bool {
-				switch b := n.(type) {
-				case *ast.BlockStmt:
-					visitBlock(b.List)
-				case *ast.CaseClause:
-					visitBlock(b.Body)
-				}
-				return true
-			})
-			var acc []struct {
-				pos token.Pos
-				txt string
-			}
-			ast.Inspect(fd.Body, func(n ast.Node) bool {
-				switch x := n.(type) {
-				case *ast.SelectorExpr:
-					if exprString(x) == recv+".freeIdx" {
-						acc = append(acc, struct {
-							pos token.Pos
-							txt string
-						}{x.Pos(), exprString(x)})
-					}
-				case *ast.IndexExpr:
-					if id, ok := x.X.(*ast.Ident); ok && bufs[id.Name] {
-						acc = append(acc, struct {
-							pos token.Pos
-							txt string
-						}{x.Pos(), exprString(x)})
-					}
-				}
-				return true
-			})
-			if lockPos != 0 {
-				locked = append(locked, fd.Name.Name)
-			}
-			seen := map[string]bool{}
-			for _, a := range acc {
-				out := lockPos == 0 || a.pos < lockPos
-				for _, c := range closing {
-					if a.pos > c {
-						out = true
-					}
-				}
-				if out {
-					k := fmt.Sprintf("%s: %s", fd.Name.Name, strings.Join(strings.Fields(a.txt), " "))
-					if !seen[k] {
-						seen[k] = true
-						unlocked = append(unlocked, k)
+				case *ast.DeferStmt:
+					if exprString(x.Call) == recv+".lock.Unlock()" {
+						evs = append(evs, ev{x.Pos(), 3})
 					}
 				}
 			}
 		}
-		sort.Strings(unlocked)
-		sort.Strings(locked)
-		if unlocked == nil {
-			unlocked = []string{}
+		ast.Inspect(fd.Body, func(n ast.Node) bool {
+			switch b := n.(type) {
+			case *ast.BlockStmt:
+				visitBlock(b.List)
+			case *ast.CaseClause:
+				visitBlock(b.Body)
+			case *ast.CommClause:
+				visitBlock(b.Body)
+			case *ast.FuncLit:
+				return false
+			}
+			return true
+		})
+		sort.Slice(evs, func(i, j int) bool { return evs[i].pos < evs[j].pos })
+		inside := func(p token.Pos) bool {
+			in := false
+			for _, e := range evs {
+				if e.pos > p {
+					break
+				}
+				switch e.kind {
+				case 1:
+					in = true
+				case 2:
+					in = false
+				}
+			}
+			return in
 		}
-		fc.Facts["blocks.unlocked_state_access"] = unlocked
-		fc.Facts["blocks.locked_methods"] = locked
+		hasLock := false
+		for _, e := range evs {
+			if e.kind == 1 {
+				hasLock = true
+			}
+		}
+		if hasLock {
+			locked = append(locked, fd.Name.Name)
+		}
+		seen := map[string]bool{}
+		flag := func(pos token.Pos, txt string) {
+			if inside(pos) {
+				return
+			}
+			k := fmt.Sprintf("%s: %s", fd.Name.Name, strings.Join(strings.Fields(txt), " "))
+			if !seen[k] {
+				seen[k] = true
+				unlocked = append(unlocked, k)
+			}
+		}
+		ast.Inspect(fd.Body, func(n ast.Node) bool {
+			switch x := n.(type) {
+			case *ast.FuncLit:
+				return false
+			case *ast.SelectorExpr:
+				for _, fl := range t.fields {
+					if exprString(x) == recv+"."+fl {
+						flag(x.Pos(), exprString(x))
+					}
+				}
+				for _, fl := range t.anyFields {
+					if x.Sel.Name == fl && exprString(x.X) != recv {
+						flag(x.Pos(), exprString(x))
+					}
+				}
+			case *ast.IndexExpr:
+				if id, ok := x.X.(*ast.Ident); ok && bufs[id.Name] {
+					flag(x.Pos(), exprString(x))
+				}
+			case *ast.CallExpr:
+				for _, h := range t.helpers {
+					if exprString(x.Fun) == recv+"."+h {
+						flag(x.Pos(), exprString(x.Fun)+"()")
+					}
+				}
+			}
+			return true
+		})
+	}
+	sort.Strings(unlocked)
+	sort.Strings(locked)
+	if unlocked == nil {
+		unlocked = []string{}
+	}
+	fc.Facts[t.key+".unlocked_state_access"] = unlocked
+	fc.Facts[t.key+".locked_methods"] = locked
+}
+
+func init() {
+	skeletonExtractors = append(skeletonExtractors, func(repo string) {
+		// (`bks.available` is only touched through sync/atomic; Block() hands out a data slice without reading it)
+		lockRegionFacts(repo, lockTarget{key: "blocks", path: []string{"container", "bytes", "blocks.go"}, recvType: "*Blocks",
+			fields: []string{"freeIdx"}, bufCall: ".bts.Buffer", only: ast.IsExported})
+		// the LRU cache: the ordered map of residents and the in-flight table
+		lockRegionFacts(repo, lockTarget{key: "ecache", path: []string{"container", "lru", "ecache.go"}, recvType: "*ECache",
+			fields: []string{"items", "inflight"}})
+		// the timeout dispatcher: the heap of pending futures, the watcher counter, and the heap position / callback
+		// of any future
+		lockRegionFacts(repo, lockTarget{key: "timeout", path: []string{"timeout", "timeout.go"}, recvType: "*callControl",
+			fields: []string{"futures", "watchers"}, anyFields: []string{"idx", "f"}})
+		// the in-memory KV store: the records and the waiter table; live / leaveWaiter / notifyWaiters run under the
+		// caller's lock by contract: a call of one of them is an access
+		lockRegionFacts(repo, lockTarget{key: "inmem", path: []string{"kvs", "inmem", "inmem.go"}, recvType: "*service",
+			fields: []string{"recs", "verChange"}, helpers: []string{"live", "leaveWaiter", "notifyWaiters"}})
 	})
 }
